@@ -1882,6 +1882,21 @@ func (r *Run) doChase() *Violation {
 	}
 	e := cands[t.Intn(len(cands))]
 	rounds := 3 + t.Intn(48)
+	if t.Bool(8) {
+		// far beyond any attempt number ordinary use reaches: minBackoff x 1.1^n has left the
+		// range of every integer type long before, only the cap keeps the delay meaningful
+		rounds = 230 + t.Intn(120)
+		var long []*ED
+		for _, c := range cands {
+			if c.mustAlive(time.Now().Add(time.Duration(rounds+2) * (nominalBackoff(&c.Sub.Cfg, 1000) + time.Second))) {
+				long = append(long, c)
+			}
+		}
+		if len(long) > 0 {
+			e = long[t.Intn(len(long))]
+			r.stat("long_chase")
+		}
+	}
 	r.ev("chase m%d on %s for %d rounds", e.Msg.Seq, e.Sub.Name, rounds)
 	for k := 0; k < rounds; k++ {
 		if e.State != stOut || e.Fuzzy || !e.Sub.Live {
@@ -1907,6 +1922,9 @@ func (r *Run) doChase() *Violation {
 			return v
 		}
 		r.M.probe("chase_round")
+		if e.Seen >= 220 {
+			r.M.probe("chase_attempt_220_or_more")
+		}
 	}
 	return nil
 }
